@@ -19,6 +19,27 @@ def _mk_solver(facts, pc, goal, timeout_ms):
     return s
 
 
+def model_validates(m, facts, pc, goal):
+    """a 'sat' answer is believed only if the model really falsifies the goal and satisfies the path condition
+    (z3 can answer sat on problems with recursive functions / lambdas / quantifiers without a checked model)"""
+    try:
+        if not z3.is_false(m.eval(goal, model_completion=True)):
+            return False
+        for p in pc:
+            if isinstance(p, bool):
+                if not p:
+                    return False
+                continue
+            if z3.is_quantifier(p):
+                continue
+            v = m.eval(p, model_completion=True)
+            if z3.is_false(v):
+                return False
+        return True
+    except z3.Z3Exception:
+        return False
+
+
 def discharge(ob, facts, timeout_ms=10000, use_cvc5=True, both=False):
     """sets ob.verdict in {'proved','refuted','undecided'}, ob.backend, ob.time, ob.model (z3 model or None)"""
     t0 = time.time()
@@ -79,6 +100,10 @@ def discharge(ob, facts, timeout_ms=10000, use_cvc5=True, both=False):
                 ob.verdict, ob.backend = "proved", "cvc5"
             elif v == "sat":
                 ob.verdict, ob.backend = "refuted", "cvc5"
+    if ob.verdict == "refuted" and ob.model is not None and not model_validates(ob.model, facts, ob.pc, goal):
+        ob.verdict = "undecided"
+        ob.note = "solver answered sat but its model does not falsify the goal when evaluated (unchecked model)"
+        ob.model = None
     if both and ob.verdict == "proved" and ob.backend.startswith("z3"):
         v = cvc5_check(s.to_smt2(), timeout_ms)
         ob.cross = v
